@@ -739,16 +739,29 @@ func c05Limits(c *Ctx, r *Rng) {
 			cs := &c05Case{Kind: "limits:" + l.name, Stream: hx(stream), Sizes: sizes, AlterAt: -1, Frame: -1}
 			R.Case("lim|"+l.name+fmt.Sprint(prev), true)
 			R.Count("limits")
-			var m0, m1 runtime.MemStats
-			runtime.GC()
-			runtime.ReadMemStats(&m0)
-			rs, pmsg := realReadSeq(stream, sizes)
-			runtime.ReadMemStats(&m1)
+			// TotalAlloc is process-wide: other goroutines of the harness may allocate meanwhile, so the
+			// measurement is repeated and the smallest delta counts (a real allocation happens every time)
+			var rs []readRes
+			var pmsg string
+			d := uint64(1) << 62
+			for attempt := 0; attempt < 4; attempt++ {
+				var m0, m1 runtime.MemStats
+				runtime.GC()
+				runtime.ReadMemStats(&m0)
+				rs, pmsg = realReadSeq(stream, sizes)
+				runtime.ReadMemStats(&m1)
+				if dd := m1.TotalAlloc - m0.TotalAlloc; dd < d {
+					d = dd
+				}
+				if d <= 4<<20 || pmsg != "" {
+					break
+				}
+			}
 			if pmsg != "" {
 				R.Violate(Violation{Kind: "oracle", Key: "reader-panic", What: "panic on hostile size fields: " + pmsg, Case: cs.m()})
 				continue
 			}
-			if d := m1.TotalAlloc - m0.TotalAlloc; d > 4<<20 {
+			if d > 4<<20 {
 				R.Violate(Violation{Kind: "oracle", Key: "limit-alloc", What: fmt.Sprintf("size field beyond the limit allocated %d bytes before being rejected", d), Case: cs.m()})
 				continue
 			}
